@@ -24,6 +24,7 @@
 (*   [t:"inc",x]  {{$x + 1}}       [t:"lt",x,v] {{lt($x, v)}}              *)
 (*   [t:"ge",x,v] {{ge($x, v)}}                                            *)
 (*   [t:"dbl",x]  $x$x  (string mode: the value is the string's length)    *)
+(*   [t:"sub",x,v] {{$x - v}}  (a condition that may be negative)          *)
 (***************************************************************************)
 EXTENDS Integers, Sequences, FiniteSets, TLC
 
@@ -37,6 +38,7 @@ Inc(x) == [t |-> "inc", x |-> x, v |-> 0]
 Lt(x, v) == [t |-> "lt", x |-> x, v |-> v]
 Ge(x, v) == [t |-> "ge", x |-> x, v |-> v]
 Dbl(x) == [t |-> "dbl", x |-> x, v |-> 0]
+Sub(x, v) == [t |-> "sub", x |-> x, v |-> v]      \* {{$x - v}}: negative, zero or positive (conditions only)
 
 N0 == [id |-> 0, k |-> "leaf", ch |-> <<>>,
        ref |-> 0,         \* leaf: id of the element it is positioned against (0: none)
